@@ -15,12 +15,12 @@ import (
 const vS16A = `
 interface Node { id: ID! }
 interface Pet { id: ID! name: String! }
-type Cat implements Node & Pet { id: ID! name: String! lives(min: Int = 1): Int old: Int @deprecated(reason: "gone") }
+type Cat implements Node & Pet { id: ID! name: String! old: Int @deprecated(reason: "gone") lives(min: Int = 1): Int }
 type Dog implements Node & Pet { id: ID! name: String! bark: [String!]! }
 union Thing = Cat | Dog
 enum Mood { HAPPY GRUMPY @deprecated }
 input Filter { mood: Mood = HAPPY limit: Int = 10 tags: [String!] }
-type Query { node(id: ID!): Node pets(filter: Filter): [Pet!]! things: [Thing!]! }
+type Query { node(id: ID!): Node pets(filter: Filter, limit: Int = null): [Pet!]! things: [Thing!]! }
 `
 const vS16B = `
 interface Node { id: ID! }
